@@ -5,6 +5,7 @@ CONSTANTS
   FetchMax = 2
   HWFallback = TRUE
   ElectAlive = TRUE
+  AllowLag = FALSE
   ElectDown = TRUE
 POSTCONDITION Done
 CHECK_DEADLOCK FALSE
